@@ -425,8 +425,12 @@ class Array:
         """
         array = self._checkarrayforappend(array)
         fd.seek(0, 2)  # move to end
+        endpos = fd.tell()
         array.tofile(fd)
         fd.flush()
+        # numpy does not always notice that not all data could be written
+        if os.fstat(fd.fileno()).st_size != endpos + array.nbytes:
+            raise OSError("could not write all data to disk")
         return array.shape[0]
 
     def iterappend(self, arrayiterable):
@@ -479,6 +483,8 @@ class Array:
             array = self._checkarrayforappend(array)
             try:
                 array.tofile(str(self._datapath))
+                if self._datapath.stat().st_size != array.nbytes:
+                    raise OSError("could not write all data to disk")
             except Exception:
                 os.truncate(self._datapath, 0)  # back to the empty array
                 raise
